@@ -103,7 +103,31 @@ class PendingComp(PendingExprGeneric[_CompNode]):
         for comp in self.node.generators:
             self.get_comp_target_names(comp.target)
 
+    def _iter_fields(self):
+        # The first iterable is evaluated in the enclosing scope,
+        # everything else inside the scope of the comprehension.
+        first = self.node.generators[0]
+        first_iter = yield first.iter
         self.nsp.comp_stack.append(self)
+        first_target = yield first.target
+        first_ifs = []
+        for _if in first.ifs:
+            first_ifs.append((yield _if))
+        generators = [
+            comprehension(
+                target=first_target,
+                iter=first_iter,
+                ifs=first_ifs,
+                is_async=first.is_async,
+            )
+        ]
+        for comp in self.node.generators[1:]:
+            generators.append((yield comp))
+        for field_name in self.node._fields:
+            if field_name == "generators":
+                self.converted_dict[field_name] = generators
+            else:
+                self.converted_dict[field_name] = yield getattr(self.node, field_name)
 
     def get_result(self) -> expr:
         assert self.nsp.comp_stack[-1] is self
